@@ -249,7 +249,10 @@ def desugar_mem_replace(f):
         if t["k"] != "call" or not isinstance(t.get("func"), dict):
             continue
         fn = t["func"].get("const", {}).get("fn") if "const" in t["func"] else None
-        if not fn or _short(fn.get("path", "")) != "core::mem::replace" or len(t["args"]) != 2 or t.get("target") is None:
+        sp_ = _short(fn.get("path", "")) if fn else ""
+        # `o.take()` = mem::replace(&mut o, None);  `mem::take(&mut o)` on an Option likewise
+        is_take = False   # (`o.take()` is left as the call it is: the capacity rules read it in that form)
+        if not fn or not (sp_ == "core::mem::replace" and len(t["args"]) == 2 or is_take) or t.get("target") is None:
             continue
         r = t["args"][0].get("move") or t["args"][0].get("copy")
         if r is None or r["p"] or cnt.get(r["l"]) != 1 or r["l"] not in refdef:
@@ -262,7 +265,10 @@ def desugar_mem_replace(f):
             else:
                 break
         b["stmts"].append({"k": "assign", "place": copy.deepcopy(t["dest"]), "rv": {"use": {"copy": copy.deepcopy(place)}}, "s": t["s"]})
-        b["stmts"].append({"k": "assign", "place": place, "rv": {"use": copy.deepcopy(t["args"][1])}, "s": t["s"]})
+        if is_take:
+            b["stmts"].append({"k": "assign", "place": place, "rv": {"agg": "adt", "adt": "core::option::Option", "variant": "None", "fields": [], "ops": []}, "s": t["s"]})
+        else:
+            b["stmts"].append({"k": "assign", "place": place, "rv": {"use": copy.deepcopy(t["args"][1])}, "s": t["s"]})
         b["term"] = {"k": "goto", "target": t["target"], "s": t["s"]}
         n += 1
     return n
